@@ -35,6 +35,7 @@ import z3
 
 from pyvc import loader
 from pyvc.interp import _ENGINE, Env, PathEnd
+from contracts.common import replay_script  # noqa: E402
 from pyvc.pack import Case
 
 loader.import_repo()
@@ -262,7 +263,7 @@ def callback_cases():
                     else:
                         ctx.oblige("successful frame: the callee's storage writes, created contracts and balance changes persist", z3.BoolVal(storage_fingerprint(nx.storage) != pre.storage and tgt in storage_fingerprint(nx.storage) and len(nx.code) == len(pre.code_keys) + 1 and nx.balance is not pre.balance))
 
-            out.append(Case(f"{PROP}/sevm.SEVM.call#callback", f"{scheme},sub-frame {outcome}", harness, sources=SRC_CALL))
+            out.append(Case(f"{PROP}/sevm.SEVM.call#callback", f"{scheme},sub-frame {outcome}", harness, replay=replay_script("callback_sibling_storage.py", "a callee with two reverting paths, the caller writes and reads its storage after the failed call"), sources=SRC_CALL))
     return out
 
 
